@@ -60,7 +60,31 @@ AbsCases == { Lib("Nano", << AbsCell("ab", [outline |-> Outl, ports |-> ps, bloc
                                  !.elems = << E(1, "Drawing", "rect", R1, 0, "") >>] >>) }
 PicoCase == { Lib("Pico", << Cell("s", <<>>, <<>>, <<>>) >>) }
 
-Libs == InstCases \cup Dags \cup ShapeCases \cup AbsCases \cup PicoCase
+\* Random libraries (NRand of them; TLC's RandomElement, reproducible under -seed): five cells in a random listing order,
+\* random instance lists over the cells below (repeats allowed), random shapes / nets / layers / purposes, an abstract
+\* on some cells, annotations
+CONSTANT NRand
+Perms5 == { p \in [1..5 -> 1..5] : \A i, j \in 1..5 : p[i] = p[j] => i = j }
+Names5 == << "r_top", "r_a", "r_b", "r_c", "r_leaf" >>
+RandShape(i) == LET k == RandomElement({"rect", "polygon", "path"}) IN
+                E(RandomElement({1, 2}), RandomElement({"Drawing", "Pin"}), k,
+                  IF k = "rect" THEN RandomElement({R1, R2}) ELSE IF k = "polygon" THEN RandomElement({Pg, << <<0, 0>>, <<7, 0>>, <<0, 5>> >>}) ELSE RandomElement({Pa, << <<3, 3>>, <<3, 8>> >>}),
+                  IF k = "path" THEN RandomElement({0, 1, 7}) ELSE 0, RandomElement({"", "n", "VDD"}))
+RandInsts(below) == [k \in 1..RandomElement(0..3) |-> LET o == RandomElement(Orient) IN
+                       I("i" \o ToString(k), below[RandomElement(1..Len(below))], <<RandomElement(-9..9), RandomElement(-9..9)>>, o[1], o[2])]
+RandCellP(n, below) ==
+  LET base == Cell(n, IF below = <<>> THEN <<>> ELSE RandInsts(below), [k \in 1..RandomElement(0..3) |-> RandShape(k)],
+                   IF RandomElement(BOOLEAN) THEN << [str |-> "t", at |-> <<RandomElement(0..5), 2>>] >> ELSE <<>>)
+  IN IF RandomElement(1..4) = 1
+     THEN [base EXCEPT !.abs = << [outline |-> Outl, ports |-> << [net |-> "A", shapes |-> << LS(RandomElement({1, 2}), << Sh("rect", R1, 0) >>) >>] >>,
+                                  blockages |-> << LS(3, << Sh("rect", R2, 0) >>) >>] >>]
+     ELSE base
+RandLib(i) == LET cs == << RandCellP("r_top", <<"r_a", "r_b", "r_c", "r_leaf">>), RandCellP("r_a", <<"r_b", "r_c", "r_leaf">>), RandCellP("r_b", <<"r_c", "r_leaf">>),
+                          RandCellP("r_c", <<"r_leaf">>), RandCellP("r_leaf", <<>>) >>
+                  pm == RandomElement(Perms5)
+              IN Lib(RandomElement({"Micro", "Nano", "Angstrom"}), [k \in 1..5 |-> cs[pm[k]]])
+RandLibs == { RandLib(i) : i \in 1..NRand }
+Libs == InstCases \cup Dags \cup ShapeCases \cup AbsCases \cup PicoCase \cup RandLibs
 Init == c \in Libs
 Next == UNCHANGED c
 Spec == Init /\ [][Next]_c
